@@ -207,10 +207,24 @@ extern "C" void harness()
 	d->appendListener(EV, [](uint32_t a, uint32_t) { rec(1, 2, a); });
 	// a condition whose result is not a bool but a mask / count: it "holds" when the result is non-zero (contextual conversion), not when it equals 1
 	d->appendListener(EV, eventpp::conditionalFunctor([](uint32_t a, uint32_t b) { rec(1, 3, a + b); }, [](uint32_t a, uint32_t) -> uint32_t { rec(0, 9, a); return a & mask; }));
+	// a condition callable BOTH with the dispatched arguments and with none (an overloaded functor, e.g. one that is also used as a processIf
+	// predicate): the listener runs exactly when the condition holds FOR THE DISPATCHED ARGUMENTS, so the argument form is the one that counts
+	struct BothWays {
+		bool operator()(uint32_t a, uint32_t) const { rec(0, 8, a); return (a & mask) != want; }
+		bool operator()() const { rec(0, 7, 0); return true; }
+	};
+	d->appendListener(EV, eventpp::conditionalFunctor([](uint32_t a, uint32_t b) { rec(1, 4, a - b); }, BothWays()));
 	for(int i = 0; i < 2; i++) {
 		uint32_t a = vf_nondet_u32(), b = vf_nondet_u32();
 		g_trn = 0;
 		d->dispatch(EV, a, b);
+		// the both-ways listener is the last one: check and strip its records first
+		{
+			int e = g_trn;
+			if((a & mask) != want) { vf_assert(e >= 2 && g_tr[e - 1].kind == 1 && g_tr[e - 1].id == 4 && g_tr[e - 1].val == a - b, 284); e--; }
+			vf_assert(e >= 1 && g_tr[e - 1].kind == 0 && g_tr[e - 1].id == 8 && g_tr[e - 1].val == a, 285); e--;
+			g_trn = e;
+		}
 		bool holds = (a & mask) == want;
 		int k = 0;
 		vf_assert(g_trn >= 1 && g_tr[0].kind == 0 && g_tr[0].val == a, 275); k = 1;         // condition evaluated on the dispatched arguments
@@ -230,9 +244,42 @@ struct Pol { using Threading = VMutexOnlyThreading; };
 struct Base { uint32_t tagBase; virtual ~Base() {} };
 struct Pad { uint32_t padding; virtual ~Pad() {} };
 struct Derived : public Pad, public Base { uint32_t tagDerived; };       // Base is NOT at offset 0: the cast must adjust the pointer
+struct Movable {      // a value whose move constructor empties the source (like std::string), recognisably
+	uint32_t v; bool movedFrom;
+	explicit Movable(uint32_t x) : v(x), movedFrom(false) {}
+	Movable(const Movable & o) : v(o.v), movedFrom(o.movedFrom) {}
+	Movable(Movable && o) : v(o.v), movedFrom(o.movedFrom) { o.v = 0xdeadu; o.movedFrom = true; }
+	Movable & operator=(const Movable &) = default;
+};
 extern "C" void harness()
 {
-	unsigned which = vf_choose(3);
+	// with ADAPT defined: one conversion kind per translation unit (a change that makes one kind ill-formed must not hide the others)
+#ifdef ADAPT
+#define ADAPT_HAS(k) (ADAPT == (k))
+	unsigned which = ADAPT;
+#else
+#define ADAPT_HAS(k) 1
+	unsigned which = vf_choose(4);
+#endif
+#if ADAPT_HAS(3)
+	if(which == 3) {
+		// prototype passes a movable class by non-const lvalue reference; adapter-wrapped listeners take it BY VALUE: each receives the same value
+		// (a copy), the object itself is not consumed: later listeners and the caller still see it
+		using D = eventpp::EventDispatcher<int, void(uint32_t, Movable &), Pol>;
+		D * d = new D();
+		d->appendListener(EV, eventpp::argumentAdapter<void(uint32_t, Movable)>([](uint32_t, Movable m) { rec(1, 1, m.v); rec(1, 11, m.movedFrom ? 1u : 0u); }));
+		d->appendListener(EV, eventpp::argumentAdapter<void(uint32_t, Movable)>([](uint32_t, Movable m) { rec(1, 2, m.v); rec(1, 12, m.movedFrom ? 1u : 0u); }));
+		d->appendListener(EV, [](uint32_t, Movable & m) { rec(1, 3, m.v); rec(1, 13, m.movedFrom ? 1u : 0u); });
+		Movable obj(vf_nondet_u32());
+		const uint32_t v = obj.v;
+		g_trn = 0; d->dispatch(EV, 5u, obj);
+		vf_assert(g_trn == 6, 286);
+		for(int i = 0; i < 3 && 2 * i + 1 < g_trn; i++) { vf_assert(g_tr[2 * i].val == v, 287); vf_assert(g_tr[2 * i + 1].val == 0u, 288); }
+		vf_assert(obj.v == v && ! obj.movedFrom, 289);
+		delete d;
+	}
+#endif
+#if ADAPT_HAS(0)
 	if(which == 0) {
 		using D = eventpp::EventDispatcher<int, void(int64_t, uint32_t), Pol>;
 		D * d = new D();
@@ -242,7 +289,9 @@ extern "C" void harness()
 		vf_assert(g_trn == 2 && g_tr[0].val == (uint32_t)(int32_t)a && g_tr[1].val == (uint32_t)(uint16_t)b, 280);   // the same values converted to the listener's types
 		delete d;
 	}
-	else if(which == 1) {
+#endif
+#if ADAPT_HAS(1)
+	if(which == 1) {
 		using D = eventpp::EventDispatcher<int, void(Base *), Pol>;
 		D * d = new D();
 		Derived obj; obj.tagBase = vf_nondet_u32(); obj.tagDerived = vf_nondet_u32(); obj.padding = 7;
@@ -252,7 +301,9 @@ extern "C" void harness()
 		vf_assert(g_trn == 1 && seen == &obj && g_tr[0].val == obj.tagDerived, 281);
 		delete d;
 	}
-	else {
+#endif
+#if ADAPT_HAS(2)
+	if(which == 2) {
 		using D = eventpp::EventDispatcher<int, void(std::shared_ptr<Base>), Pol>;
 		D * d = new D();
 		auto sp = std::make_shared<Derived>(); sp->tagDerived = vf_nondet_u32();
@@ -263,6 +314,7 @@ extern "C" void harness()
 		vf_assert(sp.use_count() == 1, 283);
 		delete d;
 	}
+#endif
 	vf_end();
 }
 #endif
